@@ -7,8 +7,6 @@ props = json.load(open(os.path.join(ROOT, "contracts", "props.json")))
 NA = {
  "C01": "soundness is a meta-theorem over typing derivations x VM runs; the per-operator lemmas live in Product/Unit/DType iterator code neither Verus nor Kani can process; the known exponent mismatch is a cross-phase disagreement no single-function postcondition expresses (DESIGN 5)",
  "C03": "numerical-accuracy claim ('up to floating-point rounding') over Product/Unit iterator code: Verus cannot state an f64 tolerance or take the code, Kani cannot run it (>25 min for one same-unit addition) (DESIGN 5)",
- "C04": "convert_to is iterator/closure f64 code outside Verus and heap code outside Kani; only its first branch is read off as an assumed contract elsewhere (DESIGN 5)",
- "C05": "full_simplify* are for/find/chunk_by/max_by closure pipelines: no rewrite rule short of re-writing them makes them Verus input (DESIGN 5)",
  "C07": "a relation between DIFFERENT input histories (incremental vs batched vs replayed); no contract on one call states it (DESIGN 5)",
  "C10": "grammar conformance = equality with a second parser; closure-driven recursive descent over &str tokens is outside Verus (DESIGN 5)",
  "C13": "quantifies over the loaded prelude (a finite configuration that must be executed); PrefixParser is &str suffix logic over an IndexMap, outside Verus (DESIGN 5)",
@@ -38,6 +36,10 @@ TEXT = {
          "contract-based deductive verification (Verus) of the real assert / assert_eq bodies against spec predicates"),
  "C20": ("proof", "4.5", "Verus proves a taint-style contract on the real html_formatter.rs: every byte appended to HTML output is renderer-owned markup or came out of html_escape::encode_text.",
          "contract-based deductive verification (Verus): escaping/taint contract on HtmlFormatter::format_part and HtmlWriter::write"),
+ "C04": ("other", "4.9", "PARTIAL (structural clauses): Verus proves on the real Quantity::convert_to (its common-factor loop abstracted by havoc, rule R13), no_simplify, with_conversion_target and the ConvertTo case of the VM's arithmetic arm that `q -> U` is carried in exactly the unit U, is marked never-to-be-simplified, keeps the conversion target for display iff the target's magnitude is not 1, keeps the magnitude when the units are equal or q is zero, and fails with IncompatibleUnits(own, target) otherwise. 'Same physical quantity within tolerance', round trips and transitivity are NOT covered: f64 accuracy over iterator code is outside both tools.",
+         "contract-based deductive verification (Verus) of the real convert_to / no_simplify / with_conversion_target / ConvertTo arm; loop abstracted by havoc"),
+ "C05": ("other", "4.9", "PARTIAL (one clause): Verus proves that full_simplify and full_simplify_with_registry return a value marked by an explicit conversion unchanged (the marking itself is proved for the ConvertTo arm). Preservation of dimension and magnitude by the simplification heuristics is NOT covered.",
+         "contract-based deductive verification (Verus) of the can_simplify guards of the real full_simplify / full_simplify_with_registry (function tails abstracted)"),
  "C09": ("other", "4.6", "PARTIAL (bytecode encoding layer only): Verus proves layout and little-endian round-trip contracts on the real Vm::{push_u16, add_op*, patch_u16_value_at, read_byte, read_u16}: an operand written by the compiler or patcher is the operand the interpreter reads, and bytes/spans stay in lock step. Compilation order, slots, jumps distances, call frames are NOT covered.",
          "contract-based deductive verification (Verus) of the VM byte-encoding helpers"),
  "C08": ("other", "5", "PARTIAL: panic-freedom of every function under contract in all units (arithmetic overflow, indexing, unwrap/expect, unreachable!, assert!/debug_assert! become Verus obligations under the stated preconditions). NOT the whole pipeline: tokenizer, parser, type checker, Product/Unit/DType arithmetic, diagnostics and promptness are outside; the three crashes named in the statement are outside every unit and are not detected.",
